@@ -119,25 +119,23 @@ func (w *World) findIterCopy(rel string) *iterCopy {
 			}
 			continue
 		}
-		// constructors of the counter iterator: return &ranger{...}
-		if ic.rangerT != nil && sig.Results().Len() == 1 && len(f.Decl.Body.List) == 1 {
-			if ret, ok := f.Decl.Body.List[0].(*ast.ReturnStmt); ok && len(ret.Results) == 1 {
-				e := unparen(ret.Results[0])
-				if u, ok := e.(*ast.UnaryExpr); ok {
-					e = u.X
+		// constructors of the counter iterator: exported-role functions over ints returning one iterator
+		if ic.rangerT != nil && sig.Results().Len() == 1 && sig.Params().Len() >= 1 && sig.Params().Len() <= 2 {
+			allInt := true
+			for i := 0; i < sig.Params().Len(); i++ {
+				if !isBasicKind(sig.Params().At(i).Type(), types.Int) {
+					allInt = false
 				}
-				if cl, ok := e.(*ast.CompositeLit); ok {
-					if nt, ok := f.Pkg.TypesInfo.Types[cl].Type.(*types.Named); ok && nt.Obj() == ic.rangerT.Obj() {
-						lname := strings.ToLower(f.Decl.Name.Name)
-						switch {
-						case strings.HasPrefix(lname, "range"):
-							ic.rangeF = f
-						case strings.HasPrefix(lname, "between"):
-							ic.betweenF = f
-						case strings.HasPrefix(lname, "until"):
-							ic.untilF = f
-						}
-					}
+			}
+			if allInt {
+				lname := strings.ToLower(f.Decl.Name.Name)
+				switch {
+				case strings.HasPrefix(lname, "range") && sig.Params().Len() == 2:
+					ic.rangeF = f
+				case strings.HasPrefix(lname, "between") && sig.Params().Len() == 2:
+					ic.betweenF = f
+				case strings.HasPrefix(lname, "until") && sig.Params().Len() == 1:
+					ic.untilF = f
 				}
 			}
 		}
@@ -186,320 +184,17 @@ func checkC19(r *Run) {
 }
 
 func c19Copy(r *Run, ic *iterCopy) []string {
-	w := r.W
 	var summary []string
-	// ---- Next of the counter iterator
-	{
-		f := ic.rangerNext
-		info := f.Pkg.TypesInfo
-		recv := f.Obj.Type().(*types.Signature).Recv()
-		st := ic.rangerT.Underlying().(*types.Struct)
-		fieldOfRecv := func(e ast.Expr) *types.Var {
-			bx, fld := fieldOf(info, e)
-			if fld != nil && objOf(info, bx) == recv {
-				return fld
-			}
-			return nil
-		}
-		shape := "?"
-		var posF, endF *types.Var
-		if len(f.Decl.Body.List) == 2 {
-			ifs, ok1 := f.Decl.Body.List[0].(*ast.IfStmt)
-			ret, ok2 := f.Decl.Body.List[1].(*ast.ReturnStmt)
-			if ok1 && ok2 && ifs.Init == nil && ifs.Else == nil && len(ret.Results) == 1 && isNilIdent(info, ret.Results[0]) {
-				if be, ok := unparen(ifs.Cond).(*ast.BinaryExpr); ok {
-					x, y, op := be.X, be.Y, be.Op
-					if op == token.GTR {
-						x, y, op = y, x, token.LSS
-					}
-					posF, endF = fieldOfRecv(x), fieldOfRecv(y)
-					if op == token.LSS && posF != nil && endF != nil && posF != endF && len(ifs.Body.List) == 2 {
-						inc, okI := ifs.Body.List[0].(*ast.IncDecStmt)
-						rt, okR := ifs.Body.List[1].(*ast.ReturnStmt)
-						if okI && okR && inc.Tok == token.INC && fieldOfRecv(inc.X) == posF && len(rt.Results) == 1 && fieldOfRecv(rt.Results[0]) == posF {
-							shape = "if pos < end { pos++; return pos }; return nil"
-						}
-					}
-				}
-			}
-		}
-		if shape != "?" {
-			r.Ok("R1", f.Name(), "Next shape", w.Pos(f.Decl.Pos()), shape+"  => yields pos0+1 .. end, nothing when pos0 >= end, terminates after end-pos0 steps, and pos++ cannot wrap because pos < end")
-			r.Ok("R2", f.Name(), "pos++", w.Pos(f.Decl.Pos()), "dominated by the strict comparison pos < end")
-		} else {
-			r.Bad("R1", f.Name(), "Next shape", w.Pos(f.Decl.Pos()),
-				"the counter iterator's Next must be exactly 'if pos < end { pos++; return pos }; return nil' (strict comparison of the fields, increment inside): other forms change the interval or wrap at the extremes of int (for example comparing pos+1 <= end overflows at MaxInt and never ends)")
-			// arithmetic in the condition is an overflow site
-			inspectBody(f.Decl.Body, false, func(n ast.Node) bool {
-				if be, ok := n.(*ast.BinaryExpr); ok && (be.Op == token.ADD || be.Op == token.SUB) {
-					r.Bad("R2", f.Name(), "arithmetic "+short(w.Fset, be), w.Pos(be.Pos()), "+-1 on a field that may hold an extreme int, not dominated by a strict comparison")
-				}
-				return true
-			})
-		}
-		summary = append(summary, "Next="+shape)
-		// constructors
-		spec := map[string][2]string{"range": {"p0", "p1"}, "between": {"p0+1", "p1-1"}, "until": {"0", "p0-1"}}
-		for _, c := range []struct {
-			name string
-			f    *FuncInfo
-		}{{"range", ic.rangeF}, {"between", ic.betweenF}, {"until", ic.untilF}} {
-			cinfo := c.f.Pkg.TypesInfo
-			sig := c.f.Obj.Type().(*types.Signature)
-			var pos0, end linForm
-			inspectBody(c.f.Decl.Body, false, func(n ast.Node) bool {
-				kv, ok := n.(*ast.KeyValueExpr)
-				if !ok {
-					return true
-				}
-				k, _ := kv.Key.(*ast.Ident)
-				if k == nil {
-					return true
-				}
-				fld, _ := cinfo.Uses[k].(*types.Var)
-				switch {
-				case fld != nil && posF != nil && fld == posF || (posF == nil && fld == st.Field(0)):
-					pos0 = linearForm(cinfo, sig, kv.Value)
-				case fld != nil && endF != nil && fld == endF || (endF == nil && fld == st.Field(1)):
-					end = linearForm(cinfo, sig, kv.Value)
-				}
-				// R2: +-1 on a parameter
-				if be, ok := unparen(kv.Value).(*ast.BinaryExpr); ok && (be.Op == token.ADD || be.Op == token.SUB) {
-					if lf := linearForm(cinfo, sig, be); lf.ok && lf.param != "" && lf.c != 0 {
-						r.Bad("R2", c.f.Name(), "wrapping "+lf.String()+" ("+c.name+")", w.Pos(be.Pos()),
-							"'"+short(w.Fset, be)+"' on an unconstrained int parameter wraps at the extreme of int: the interval silently becomes empty or (until) practically endless")
-					}
-				}
-				return true
-			})
-			first := linForm{pos0.param, pos0.c + 1, pos0.ok}
-			con := fmt.Sprintf("%s: first=%s last=%s", c.name, first, end)
-			want := spec[c.name]
-			if pos0.ok && end.ok && first.String() == want[0] && end.String() == want[1] {
-				r.Ok("R1", c.f.Name(), con, w.Pos(c.f.Decl.Pos()), "matches the specified interval (parameters named p0, p1 by position)")
-			} else {
-				r.Bad("R1", c.f.Name(), con, w.Pos(c.f.Decl.Pos()), fmt.Sprintf("the interval must be %s .. %s", want[0], want[1]))
-			}
-			summary = append(summary, fmt.Sprintf("%s=%s..%s", c.name, first, end))
-		}
+	cs := c19CounterNext(r, ic)
+	summary = append(summary, "Next="+cs.text)
+	for _, c := range []struct {
+		name string
+		f    *FuncInfo
+	}{{"range", ic.rangeF}, {"between", ic.betweenF}, {"until", ic.untilF}} {
+		summary = append(summary, c19Constructor(r, ic, c.name, c.f, cs))
 	}
-	// ---- groupBy
-	summary = append(summary, c19GroupBy(r, ic)...)
-	return summary
-}
-
-// normalise renders a node without position-dependent noise.
-func normSrc(w *World, n ast.Node) string { return nodeString(w.Fset, n) }
-
-func c19GroupBy(r *Run, ic *iterCopy) []string {
-	w := r.W
-	f := ic.groupByF
-	info := f.Pkg.TypesInfo
-	sig := f.Obj.Type().(*types.Signature)
-	sizeP := sig.Params().At(0)
-	var summary []string
-	fn := f.Name()
-	// size <= 0 -> error (first statement)
-	okSize := false
-	if ifs, ok := f.Decl.Body.List[0].(*ast.IfStmt); ok {
-		if be, ok := unparen(ifs.Cond).(*ast.BinaryExpr); ok && (be.Op == token.LEQ || be.Op == token.LSS) && objOf(info, be.X) == sizeP {
-			if v, ok := constInt(info, be.Y); ok && ((be.Op == token.LEQ && v == 0) || (be.Op == token.LSS && v == 1)) && len(ifs.Body.List) == 1 && isReturnNilErr(info, ifs.Body.List[0]) {
-				okSize = true
-			}
-		}
-	}
-	if okSize {
-		r.Ok("R4", fn, "size <= 0 is an error", w.Pos(f.Decl.Pos()), "first statement")
-	} else {
-		r.Bad("R4", fn, "size <= 0 guard", w.Pos(f.Decl.Pos()), "a non-positive group count must be rejected before any division")
-	}
-	summary = append(summary, fmt.Sprintf("groupBy.sizeGuard=%v", okSize))
-	// u := reflect.Indirect(reflect.ValueOf(underlying))
-	var u types.Object
-	inspectBody(f.Decl.Body, false, func(n ast.Node) bool {
-		if as, ok := n.(*ast.AssignStmt); ok && len(as.Lhs) == 1 && len(as.Rhs) == 1 {
-			if c, ok := unparen(as.Rhs[0]).(*ast.CallExpr); ok && funcIs(calleeOf(info, c), "reflect", "Indirect") && u == nil {
-				u = objOf(info, as.Lhs[0])
-			}
-		}
-		return true
-	})
-	if u == nil {
-		r.Bad("R4", fn, "no reflect.Indirect of the collection", w.Pos(f.Decl.Pos()), "slices and pointers to slices must both be accepted")
-		return summary
-	}
-	// kind switch
-	var sw *ast.SwitchStmt
-	for _, st := range f.Decl.Body.List {
-		if s, ok := st.(*ast.SwitchStmt); ok && s.Tag != nil {
-			if c, ok := unparen(s.Tag).(*ast.CallExpr); ok && methodIs(calleeOf(info, c), "reflect", "Value", "Kind") {
-				sw = s
-			}
-		}
-	}
-	if sw == nil {
-		r.Bad("R4", fn, "no kind switch", w.Pos(f.Decl.Pos()), "non-sequences must be told apart by kind")
-		return summary
-	}
-	var seq *ast.CaseClause
-	defErr := false
-	for _, c := range sw.Body.List {
-		cc := c.(*ast.CaseClause)
-		if cc.List == nil {
-			defErr = len(cc.Body) > 0 && isReturnNilErr(info, cc.Body[len(cc.Body)-1])
-			continue
-		}
-		kinds := map[int64]bool{}
-		for _, e := range cc.List {
-			if v, ok := constInt(info, e); ok {
-				kinds[v] = true
-			}
-		}
-		if kinds[17] && kinds[23] && len(kinds) == 2 { // reflect.Array, reflect.Slice
-			seq = cc
-		}
-	}
-	if defErr {
-		r.Ok("R4", fn, "non-sequence is an error", w.Pos(sw.Pos()), "default arm returns an error")
-	} else {
-		r.Bad("R4", fn, "non-sequence", w.Pos(sw.Pos()), "a value that is neither array nor slice must be an error")
-	}
-	if seq == nil {
-		r.Bad("R4", fn, "no arm for exactly {Array, Slice}", w.Pos(sw.Pos()), "groupBy partitions arrays and slices")
-		return summary
-	}
-	isLenU := func(e ast.Expr) bool {
-		c, ok := unparen(e).(*ast.CallExpr)
-		return ok && methodIs(calleeOf(info, c), "reflect", "Value", "Len") && objOf(info, unparen(c.Fun).(*ast.SelectorExpr).X) == u
-	}
-	// walk the arm
-	var groupSize, pos, e types.Object
-	var loop *ast.ForStmt
-	checks := map[string]bool{}
-	for _, st := range seq.Body {
-		switch x := st.(type) {
-		case *ast.IfStmt:
-			be, ok := unparen(x.Cond).(*ast.BinaryExpr)
-			if !ok {
-				continue
-			}
-			// shortcut: u.Len() == size -> single group
-			if be.Op == token.EQL && isLenU(be.X) && objOf(info, be.Y) == sizeP {
-				checks["shortcut"] = true
-			}
-			// if u.Len()%size != 0 { groupSize++ }
-			if be.Op == token.NEQ {
-				if m, ok := unparen(be.X).(*ast.BinaryExpr); ok && m.Op == token.REM && isLenU(m.X) && objOf(info, m.Y) == sizeP {
-					if v, ok := constInt(info, be.Y); ok && v == 0 && len(x.Body.List) == 1 {
-						if inc, ok := x.Body.List[0].(*ast.IncDecStmt); ok && inc.Tok == token.INC && objOf(info, inc.X) == groupSize && groupSize != nil {
-							checks["ceil"] = true
-						}
-					}
-				}
-			}
-			// addressable copy of an array
-			if c, ok := unparen(be.Y).(*ast.UnaryExpr); ok && c.Op == token.NOT && be.Op == token.LAND {
-				if cc, ok := unparen(c.X).(*ast.CallExpr); ok && methodIs(calleeOf(info, cc), "reflect", "Value", "CanAddr") {
-					checks["addr"] = true
-				}
-			}
-		case *ast.AssignStmt:
-			if len(x.Lhs) == 1 && len(x.Rhs) == 1 {
-				if d, ok := unparen(x.Rhs[0]).(*ast.BinaryExpr); ok && d.Op == token.QUO && isLenU(d.X) && objOf(info, d.Y) == sizeP {
-					groupSize = objOf(info, x.Lhs[0])
-					checks["div"] = true
-				}
-				if v, ok := constInt(info, x.Rhs[0]); ok && v == 0 {
-					pos = objOf(info, x.Lhs[0])
-					checks["pos0"] = true
-				}
-			}
-		case *ast.ForStmt:
-			loop = x
-		}
-	}
-	if loop != nil && pos != nil && groupSize != nil {
-		if be, ok := unparen(loop.Cond).(*ast.BinaryExpr); ok && be.Op == token.LSS && objOf(info, be.X) == pos && isLenU(be.Y) && loop.Init == nil && loop.Post == nil {
-			checks["while pos<len"] = true
-		}
-		for _, st := range loop.Body.List {
-			switch x := st.(type) {
-			case *ast.AssignStmt:
-				if len(x.Lhs) == 1 && len(x.Rhs) == 1 {
-					if s, ok := unparen(x.Rhs[0]).(*ast.BinaryExpr); ok && s.Op == token.ADD && objOf(info, s.X) == pos && objOf(info, s.Y) == groupSize && x.Tok == token.DEFINE {
-						e = objOf(info, x.Lhs[0])
-						checks["e=pos+g"] = true
-					}
-					if x.Tok == token.ADD_ASSIGN && objOf(info, x.Lhs[0]) == pos && objOf(info, x.Rhs[0]) == groupSize {
-						checks["pos+=g"] = true
-					}
-					if c, ok := unparen(x.Rhs[0]).(*ast.CallExpr); ok && builtinName(info, c) == "append" && len(c.Args) == 2 {
-						if sc, ok := unparen(c.Args[1]).(*ast.CallExpr); ok && methodIs(calleeOf(info, sc), "reflect", "Value", "Slice") && len(sc.Args) == 2 {
-							if objOf(info, unparen(sc.Fun).(*ast.SelectorExpr).X) == u && objOf(info, sc.Args[0]) == pos && objOf(info, sc.Args[1]) == e && e != nil {
-								checks["append u.Slice(pos,e)"] = true
-							}
-						}
-					}
-				}
-			case *ast.IfStmt:
-				if be, ok := unparen(x.Cond).(*ast.BinaryExpr); ok && be.Op == token.GTR && objOf(info, be.X) == e && e != nil && isLenU(be.Y) && len(x.Body.List) == 1 {
-					if as, ok := x.Body.List[0].(*ast.AssignStmt); ok && objOf(info, as.Lhs[0]) == e && isLenU(as.Rhs[0]) {
-						checks["clamp e to Len()"] = true
-					}
-				}
-			}
-		}
-		if len(loop.Body.List) != 4 {
-			checks["loop body has exactly the four steps"] = false
-		} else {
-			checks["loop body has exactly the four steps"] = true
-		}
-	}
-	need := []string{"shortcut", "div", "ceil", "pos0", "while pos<len", "e=pos+g", "clamp e to Len()", "append u.Slice(pos,e)", "pos+=g", "loop body has exactly the four steps"}
-	for _, k := range need {
-		if checks[k] {
-			r.Ok("R4", fn, k, w.Pos(seq.Pos()), "present")
-		} else {
-			r.Bad("R4", fn, "partition step missing or altered: "+k, w.Pos(seq.Pos()),
-				"the groups must be consecutive sub-slices [pos, min(pos+g, Len())) with g = ceil(Len()/size), stepping pos += g while pos < Len(); this step does not have that form")
-		}
-	}
-	// R5: Slice on arrays
-	if checks["addr"] {
-		r.Ok("R5", fn, "array made addressable before Slice", w.Pos(seq.Pos()), "if u.Kind() == Array && !u.CanAddr() { copy }")
-	} else {
-		r.Bad("R5", fn, "Slice on a possibly unaddressable array", w.Pos(seq.Pos()), "reflect.Value.Slice panics on an array held by value")
-	}
-	// summary for R3: the normalised source of the sequence arm and of Next
-	var parts []string
-	for _, st := range seq.Body {
-		parts = append(parts, normSrc(w, st))
-	}
-	summary = append(summary, "groupBy.arm="+strings.Join(parts, " ; "))
-	summary = append(summary, "groupBy.Next="+normSrc(w, ic.groupNext.Decl.Body))
-	// groupBy.Next shape
-	{
-		g := ic.groupNext
-		ginfo := g.Pkg.TypesInfo
-		okShape := false
-		if len(g.Decl.Body.List) == 4 {
-			ifs, ok := g.Decl.Body.List[0].(*ast.IfStmt)
-			if ok {
-				if be, ok := unparen(ifs.Cond).(*ast.BinaryExpr); ok && be.Op == token.GEQ && len(ifs.Body.List) == 1 {
-					if ret, ok := ifs.Body.List[0].(*ast.ReturnStmt); ok && isNilIdent(ginfo, ret.Results[0]) {
-						if _, isInc := g.Decl.Body.List[2].(*ast.IncDecStmt); isInc {
-							okShape = true
-						}
-					}
-				}
-			}
-		}
-		if okShape {
-			r.Ok("R4", g.Name(), "groups handed out in order, then nil", w.Pos(g.Decl.Pos()), "if pos >= len(group) { return nil }; v := group[pos]; pos++; return v.Interface()")
-		} else {
-			r.Bad("R4", g.Name(), "Next of the group iterator", w.Pos(g.Decl.Pos()), "the groups must be handed out once each, in order")
-		}
-	}
+	summary = append(summary, c19Partition(r, ic)...)
+	summary = append(summary, c19GroupNext(r, ic))
 	return summary
 }
 
